@@ -179,6 +179,7 @@ func main() {
 	}
 
 	outcomes := map[string]struct{}{}
+	var raceSamples []string
 	var totalStates int64
 	small := 0
 	for i, j := range jobs {
@@ -259,6 +260,20 @@ func main() {
 		if os.Getenv("VERIF_E1_PROGRESS") != "" {
 			fmt.Fprintf(os.Stderr, "job %d %s: execs=%d decisions=%d states=%d elapsed=%v\n", i, j.cfg, ex.Execs, ex.Decisions, len(r.states), time.Since(jobStart))
 		}
+		if j.conform && os.Getenv("VERIF_HELPER_E1_FREE_RACE") != "" && sub == "C03" {
+			if n, first, err := racePass(j.cfg, fl.Work); err == nil {
+				res.Count("race_pass_runs", 1)
+				res.Count("race_reports", int64(n))
+				if n > 0 {
+					res.Counters["race_pass_runs_with_reports"]++
+					if len(raceSamples) < 3 {
+						raceSamples = append(raceSamples, first)
+					}
+				}
+			} else {
+				res.CheckError("race pass of %s: %v", j.cfg, err)
+			}
+		}
 		if j.conform && !ex.Capped && os.Getenv("VERIF_HELPER_E1_FREE") != "" && (sub == "C01" || sub == "C02" || sub == "C03" || sub == "C15") {
 			for _, real := range []bool{false, true} {
 				okc, key, err := conform(j.cfg, perCfgKeys, fl.Work, real)
@@ -298,6 +313,9 @@ func main() {
 		for k := range perCfgOutcomes {
 			outcomes[k] = struct{}{}
 		}
+	}
+	if len(raceSamples) > 0 {
+		res.Bounds["race_detector_reports(informational, free-running twin)"] = raceSamples
 	}
 	res.States = totalStates
 	res.Counters["distinct_outcome_vectors"] = int64(len(outcomes))
